@@ -470,6 +470,7 @@ func (cm *connectionManager) shouldSwapPrimary(current *HostInfo) bool {
 }
 
 func (cm *connectionManager) swapPrimary(current, primary *HostInfo) {
+	verifPoint(verifCmBeforeSwapPrimary)
 	cm.hostMap.Lock()
 	// Make sure the primary is still the same after the write lock. This avoids a race with a rehandshake.
 	if cm.hostMap.Hosts[current.vpnAddrs[0]] == primary {
